@@ -126,25 +126,27 @@ def main():
                 continue
             if s.kind == "borrow" and okb and s.b.id in rp:
                 continue
-            keys.setdefault(s.key, s.span)
-    out = ["# Reviewed panic sites (C01-A / C17-A), D3.  `site key :: invariant it leans on / reason`.",
+            keys.setdefault(s.key, (s.span, s.text))
+    out = ["# Reviewed panic sites (C01-A / C17-A), D3.  `site key :: readable site :: invariant it leans on / reason`.",
+           "# The key ends in a hash of the canonical, name-independent operand expressions (renaming a local keeps it).",
            "# Generated from tools/make_panic_table.py (the reasons are written by hand there); consumed as exact keys.",
            "# Named invariants: INV-LINE, INV-LEN, INV-STACK, INV-EST, INV-COLS, INV-REMAP, INV-COLSPAN1, INV-SHRINK, INV-ROWS,",
            "# INV-SPACETAG; A1/A2/A4 are the assumptions of DESIGN.md section 7."]
     missing = []
-    for k in sorted(keys):
+    for k in sorted(keys, key=lambda k: keys[k][1]):
+        span, text = keys[k]
         reason = None
         for pat, r in R:
-            if re.search(pat, k):
+            if re.search(pat, text):
                 reason = r
                 break
         if reason is None:
-            missing.append((keys[k], k))
+            missing.append((span, text))
         else:
-            out.append("%s :: %s" % (k, reason))
+            out.append("%s :: %s :: %s" % (k, text, reason))
     with open(os.path.join(os.path.dirname(os.path.dirname(os.path.abspath(__file__))), "tables", "panic_sites.txt"), "w") as fh:
         fh.write("\n".join(out) + "\n")
-    print("%d keys, %d rows written, %d without a reason" % (len(keys), len(out) - 4, len(missing)))
+    print("%d keys, %d rows written, %d without a reason" % (len(keys), len(out) - 5, len(missing)))
     for sp, k in missing:
         print("  NO REASON: %s  %s" % (sp, k))
 
